@@ -69,3 +69,19 @@ func (i *syntaxChildMultiIdentifier) retrieveMap(
 
 	return deepestError
 }
+
+func (i *syntaxChildMultiIdentifier) setNext(next syntaxNode) {
+	if i.next != nil {
+		// The inner identifiers already share this tail.
+		i.next.setNext(next)
+		return
+	}
+
+	i.next = next
+	for _, identifier := range i.identifiers {
+		identifier.setNext(next)
+	}
+	if i.isAllWildcard {
+		i.unionQualifier.setNext(next)
+	}
+}
